@@ -57,6 +57,45 @@ theorem mkprofDbC_relation (rx : List Char → List Char → Bool) (now : Nat) (
     · simp only [CL.cleanupC_keep _ _ _ _ ht, hsk]; exact a
     · simp only [CL.cleanupC_keep _ _ _ _ ht, hsk]; exact b
 
+/-- the same for a SKELETON: a relation of the new profile is kept — held in one file, reading back as
+the same records — iff it is a core relation and at least one record was selected; otherwise neither
+form of it exists afterwards. -/
+theorem mkprofDbC_relation_skeleton (rx : List Char → List Char → Bool) (now : Nat) (src dst d : CDir)
+    (p : CParams) (ss : Schema) (hs : src.schema = some ss) (hnd : (p.schema.getD ss).names.Nodup)
+    (hrun : mkprofDbC rx now src dst p = (d, none)) (hsk : p.skeleton = true)
+    (t : Name) (newF : List Field) (ht : (t, newF) ∈ p.schema.getD ss) :
+    ∃ recs, dbRecordsC rx ss src.files p (p.schema.getD ss) t newF = .ok recs ∧
+      (coreFiles.contains t = true → recs ≠ [] →
+        C09.readRaw (d.files t.toList) = .ok (recs.map (defaultedRow newF)) ∧ C09.OneForm (d.files t.toList)) ∧
+      ((coreFiles.contains t = false ∨ recs = []) → d.files t.toList = {}) := by
+  unfold mkprofDbC at hrun
+  simp only [hs] at hrun
+  generalize hw : writeLoopC now p.gzip (fun _ => dbRecordsC rx ss src.files p (p.schema.getD ss))
+    dst.files (p.schema.getD ss) = w at hrun
+  obtain ⟨fs, e⟩ := w
+  cases e with
+  | some e => simp at hrun
+  | none =>
+    simp only [Prod.mk.injEq, and_true] at hrun
+    subst hrun
+    obtain ⟨recs, r0, h1, h2⟩ := (CL.writeLoopC_ok now p.gzip _ (fun _ _ _ _ _ => rfl) _ _ _ hnd hw).2 t newF ht
+    obtain ⟨a, b, _⟩ := CL.writeC_read now p.gzip newF recs _ _ h2
+    have hcl := CL.writeC_skeleton now p.gzip newF recs _ _ h2 (coreFiles.contains t)
+    refine ⟨recs, h1, ?_, ?_⟩
+    · intro hcore hne
+      have hre : recs.isEmpty = false := by cases recs <;> simp_all
+      rw [hcore, hre] at hcl
+      simp only [Bool.not_false, Bool.and_self, if_true] at hcl
+      show C09.readRaw (cleanupC _ _ _ fs t.toList) = _ ∧ C09.OneForm (cleanupC _ _ _ fs t.toList)
+      rw [CL.cleanupC_at _ _ _ _ _ ht, hsk, L.keeps_skeleton ht, hcore, hcl]
+      exact ⟨a, b⟩
+    · intro hno
+      show cleanupC _ _ _ fs t.toList = _
+      rw [CL.cleanupC_at _ _ _ _ _ ht, hsk, L.keeps_skeleton ht, hcl]
+      rcases hno with hc | he
+      · rw [hc]; simp
+      · rw [he]; simp
+
 /-- the in-place refresh IS C09's `write_database`: from C09's `writeDb_readRaw` — after a successful
 refresh (any `gzip`, with or without `schema=`) every relation of the (non-skeleton) profile reads
 back as the records the directory held before (`sourceRecords`: the current physical form decoded by
@@ -89,7 +128,7 @@ theorem refreshC_preserves (now : Nat) (dst d : CDir) (schema : Option Schema) (
       rw [hnames]
       exact List.mem_map_of_mem (L.mem_names ht)
     obtain ⟨fields, recs, h1, h2, h3⟩ :=
-      C09.writeDb_readRaw now (refreshReq old schema gzip) dst.files dst.files fs rfl hnd' hw _ hn
+      C09.writeDb_readRaw now (refreshReq old schema gzip) dst.files dst.files fs rfl (Or.inr hnd') hw _ hn
     have hf : fields = newF.map f09 := by
       rw [htarget] at h1
       have := CL.lookup_schema09 (schema.getD old) t newF hnd ht
@@ -107,38 +146,61 @@ theorem refreshC_preserves (now : Nat) (dst d : CDir) (schema : Option Schema) (
 "with a filter exactly those that satisfy it through the relation's key links, with no loss,
 duplication or reordering" -/
 
-/-- what the composed filter selects, in C11's terms: `db` is the source profile as a C11 database
+/-- what the composed filter selects, in C11's terms.  `db` is the source profile as a C11 database
 (`toDB`: the schema's fields with their key flags, the rows of the current physical files decoded by
-the C08 codec, every cell with its C08 cast value), `crows` the stored rows of `t` there, and
-`tuples r` the joined tuples of the stored row `r` in C11's nested-loop join along the plan C11 makes
-for `* from t where c` (the relations of the condition and at most one linking relation per gap,
-joined on shared key names by cast value), `sat` C11's evaluation of the condition on a joined tuple. -/
-structure Joined (rx : List Char → List Char → Bool) (ss : Schema) (fs : C09.Files) (t : Name)
-    (c : C11.Cond C11.ColRef) (rows : List Rec) where
+the C08 codec, key and condition cells with their C08 cast value), `rel` the relation `t` there, and
+`P` C11's evaluation of the query `* from t where c` on it (`CS.StarPlan`): THE user's condition
+resolved and type-checked, THE join plan C11 makes for it (starting with `t`, then the relations of
+the condition and at most one linking relation per gap), THE joined selection, and the condition
+indexed against it.  Nothing in `P` is free: every field is pinned by an equation with C11's functions. -/
+structure Joined (ss : Schema) (fs : C09.Files) (t : Name) (c : C11.Cond C11.ColRef) (rows : List Rec) where
   db : C11.DB
   missing : List Name
-  crows : List (List C11.Cell)
-  tuples : List C11.Cell → List (List C11.Cell)
-  sat : List C11.Cell → Bool
-  hdb : toDB ss fs = .ok (db, missing)
-  hraw : crows.map (·.map (·.raw)) = rows
-  hrel : ∃ rel, db.rel? t = some rel ∧ rel.rows = crows
-  htuples : ∃ s1 rest indices, tuples = fun r => CS.chainF db s1 rest (C11.pick indices r)
-  hsat : ∃ ci, sat = fun x => C11.evalCond rx x ci
+  rel : C11.Rel
+  P : CS.StarPlan db t c rel
+  hdb : toDB (condCols c) ss fs = .ok (db, missing)
+  hrel : db.rel? t = some rel
+  hraw : rel.rows.map (·.map (·.raw)) = rows
+
+/-- the stored rows of `t` (as C11 cells) -/
+def Joined.crows {ss fs t c rows} (J : Joined ss fs t c rows) : List (List C11.Cell) := J.rel.rows
+
+/-- the joined tuples of a stored row of `t` along THE plan (shared keys agree by cast value) -/
+def Joined.tuples {ss fs t c rows} (J : Joined ss fs t c rows) (r : List C11.Cell) : List (List C11.Cell) :=
+  J.P.tuples r
+
+/-- THE user's condition on a joined tuple -/
+def Joined.sat {ss fs t c rows} (rx : List Char → List Char → Bool) (J : Joined ss fs t c rows)
+    (x : List C11.Cell) : Bool := J.P.sat rx x
+
+/-- the rows of `t` that have at least one joined tuple along the plan satisfying the condition —
+"those that satisfy it through the relation's key links" — in stored order -/
+def Joined.selected {ss fs t c rows} (rx : List Char → List Char → Bool) (J : Joined ss fs t c rows) :
+    List Rec :=
+  (J.crows.filter (fun r => (J.tuples r).any (J.sat rx))).map (·.map (·.raw))
+
+/-- relational reading of `sat` (from C11's `evalCond_evalW`): a joined tuple has witness rows, one stored
+row per joined relation, agreeing with it column by column (cast values), and the condition holds on
+the tuple iff the user's resolved condition holds on those rows. -/
+theorem Joined.sat_witness {ss fs t c rows} (rx : List Char → List Char → Bool) (J : Joined ss fs t c rows)
+    (r : List C11.Cell) (hr : r ∈ J.crows) (x : List C11.Cell) (hx : x ∈ J.tuples r) :
+    ∃ w : String → List C11.Cell, C11.WitBy J.db J.P.sel.index x w ∧
+      J.sat rx x = C11.evalW rx J.db w J.P.cq :=
+  J.P.sat_witness rx J.hrel r hr x hx
 
 /-- **The select output, derived from C11's theorems** (`select_inv`/`select_eq_spec`, the nested-loop
-form of the join, the index invariants): when C11's `select` answers for the query of mkprof, the
-selection is the stored rows of `t` in stored order, each repeated once per joined tuple that
-satisfies the condition — `expand rows ks` with `ks` the per-row numbers of satisfying joined tuples.
-This is exactly the shape the round-1 model took as a PARAMETER. -/
+form of the join, the index invariants): when C11's `select` answers for the query of mkprof, C11's
+evaluation `J` of THAT query exists and the selection is the stored rows of `t` in stored order, each
+repeated once per joined tuple along the plan that satisfies the condition — `expand rows ks` with
+`ks` the per-row numbers of satisfying joined tuples (the shape the round-1 model took as a PARAMETER). -/
 theorem selectC_grouped (rx : List Char → List Char → Bool) (ss : Schema) (fs : C09.Files) (t : Name)
     (c : C11.Cond C11.ColRef) (rs rows : List Rec) (fields : List Field)
     (hnd : ss.names.Nodup) (ht : (t, fields) ∈ ss) (hf : fields ≠ [])
     (hraw : rawRows fs t = .ok (some rows)) (h : selectC rx ss fs t c = .rows rs) :
-    ∃ J : Joined rx ss fs t c rows,
-      rs = expand rows (J.crows.map (fun r => ((J.tuples r).filter J.sat).length)) := by
+    ∃ J : Joined ss fs t c rows,
+      rs = expand rows (J.crows.map (fun r => ((J.tuples r).filter (J.sat rx)).length)) := by
   unfold selectC at h
-  cases hdb : toDB ss fs with
+  cases hdb : toDB (condCols c) ss fs with
   | error e => simp [hdb] at h
   | ok dm =>
     obtain ⟨db, missing⟩ := dm
@@ -151,47 +213,47 @@ theorem selectC_grouped (rx : List Char → List Char → Bool) (ss : Schema) (f
       · cases h
       · simp only [SelRes.rows.injEq] at h
         subst h
-        obtain ⟨rel, h1, h2, h3⟩ := CL.toDB_rel fs ss db missing t fields rows hnd ht hdb hraw
+        obtain ⟨rel, h1, h2, h3⟩ := CL.toDB_rel (condCols c) fs ss db missing t fields rows hnd ht hdb hraw
         have hfr : rel.fields ≠ [] := by
           rw [h2]
           cases fields with
           | nil => exact absurd rfl hf
           | cons a as => simp
-        obtain ⟨s1, rest, indices, ci, hrows⟩ := CS.select_star_grouped rx db t c res rel h1 hfr hsel
-        refine ⟨{ db := db, missing := missing, crows := rel.rows,
-                  tuples := fun r => CS.chainF db s1 rest (C11.pick indices r),
-                  sat := fun x => C11.evalCond rx x ci, hdb := hdb, hraw := h3, hrel := ⟨rel, h1, rfl⟩,
-                  htuples := ⟨s1, rest, indices, rfl⟩, hsat := ⟨ci, rfl⟩ }, ?_⟩
-        simp only
+        obtain ⟨P, hrows⟩ := CS.select_star_grouped rx db t c res rel h1 hfr hsel
+        refine ⟨{ db := db, missing := missing, rel := rel, P := P, hdb := hdb, hrel := h1, hraw := h3 }, ?_⟩
+        simp only [Joined.crows, Joined.tuples, Joined.sat]
         rw [hrows, CL.grouped_eq_expand (fun r : List C11.Cell => r.map (·.raw)), h3]
+        rfl
 
-/-- **The filter clause for the composed model.**  If C11's `select` answers, the rows mkprof copies
-from relation `t` are — provided no two identical rows are adjacent among them (F20) — exactly the
-stored rows of `t` that have a joined tuple satisfying the condition, in stored order, each once. -/
+/-- **The filter clause for the composed model**: "with a filter exactly those that satisfy it through
+the relation's key links, with no loss, duplication or reordering".  If C11's `select` answers, then
+with `J` C11's evaluation of THE query (plan and condition pinned, see `Joined`):
+`J.selected rx` — the stored rows of `t` having at least one joined tuple along the plan that satisfies
+the user's condition — is a subsequence of the source rows, and the rows mkprof copies are exactly
+`J.selected rx` provided no two identical rows are adjacent in it (F20); otherwise they differ from it. -/
 theorem selectRowsC_exact_partial (rx : List Char → List Char → Bool) (ss : Schema) (fs : C09.Files)
     (t : Name) (c : C11.Cond C11.ColRef) (rs rows : List Rec) (fields : List Field)
     (hnd : ss.names.Nodup) (ht : (t, fields) ∈ ss) (hf : fields ≠ [])
     (hraw : rawRows fs t = .ok (some rows)) (h : selectC rx ss fs t c = .rows rs) :
-    ∃ J : Joined rx ss fs t c rows,
-      let selected := (J.crows.filter (fun r => (J.tuples r).any J.sat)).map (·.map (·.raw))
-      List.Sublist selected rows ∧
-      (NoAdjDup selected → selectRowsC rx ss fs (some c) t rows = .ok selected) ∧
-      (¬ NoAdjDup selected → ∃ merged, selectRowsC rx ss fs (some c) t rows = .ok merged ∧ merged ≠ selected) := by
+    ∃ J : Joined ss fs t c rows,
+      List.Sublist (J.selected rx) rows ∧
+      (NoAdjDup (J.selected rx) → selectRowsC rx ss fs (some c) t rows = .ok (J.selected rx)) ∧
+      (¬ NoAdjDup (J.selected rx) →
+        ∃ merged, selectRowsC rx ss fs (some c) t rows = .ok merged ∧ merged ≠ J.selected rx) := by
   obtain ⟨J, hrs⟩ := selectC_grouped rx ss fs t c rs rows fields hnd ht hf hraw h
   refine ⟨J, ?_⟩
-  have hk : kept rows (J.crows.map (fun r => ((J.tuples r).filter J.sat).length))
-      = (J.crows.filter (fun r => (J.tuples r).any J.sat)).map (·.map (·.raw)) := by
-    have := CL.kept_filter (fun r : List C11.Cell => r.map (·.raw)) J.tuples J.sat J.crows
+  have hk : kept rows (J.crows.map (fun r => ((J.tuples r).filter (J.sat rx)).length)) = J.selected rx := by
+    have := CL.kept_filter (fun r : List C11.Cell => r.map (·.raw)) J.tuples (J.sat rx) J.crows
+    simp only [Joined.crows] at this
     rw [J.hraw] at this
     exact this
-  simp only
   rw [← hk]
   refine ⟨L.kept_sublist _ _, ?_, ?_⟩
   · intro hd
     simp only [selectRowsC, h, hrs]
     rw [filter_exact_partial _ _ hd]
   · intro hd
-    refine ⟨tsqlDistinct (expand rows (J.crows.map (fun r => ((J.tuples r).filter J.sat).length))),
+    refine ⟨tsqlDistinct (expand rows (J.crows.map (fun r => ((J.tuples r).filter (J.sat rx)).length))),
       by simp only [selectRowsC, h, hrs], ?_⟩
     exact filter_inexact_of_adjacent_duplicates _ _ hd
 
@@ -213,17 +275,16 @@ theorem mkprofDbC_filtered (rx : List Char → List Char → Bool) (now : Nat) (
     (hcopy : p.full = true ∨ t ∈ coreFiles)
     (c : C11.Cond C11.ColRef) (hc : p.cond = some c) (rows rs : List Rec)
     (hraw : rawRows src.files t = .ok (some rows)) (hsel : selectC rx ss src.files t c = .rows rs) :
-    ∃ J : Joined rx ss src.files t c rows,
-      let selected := (J.crows.filter (fun r => (J.tuples r).any J.sat)).map (·.map (·.raw))
-      NoAdjDup selected →
-        C09.readRaw (d.files t.toList) = .ok (selected.map (defaultedRow fields)) := by
+    ∃ J : Joined ss src.files t c rows,
+      NoAdjDup (J.selected rx) →
+        C09.readRaw (d.files t.toList) = .ok ((J.selected rx).map (defaultedRow fields)) := by
   obtain ⟨J, _, hex, _⟩ := selectRowsC_exact_partial rx ss src.files t c rs rows fields hnd ht hf hraw hsel
   refine ⟨J, ?_⟩
-  intro selected hd
+  intro hd
   have hnd' : (p.schema.getD ss).names.Nodup := by rw [hschema]; exact hnd
   have ht' : (t, fields) ∈ p.schema.getD ss := by rw [hschema]; exact ht
   obtain ⟨recs, h1, h2, _⟩ := mkprofDbC_relation rx now src dst d p ss hs hnd' hrun hsk t fields ht'
-  have hrecs : recs = selected := by
+  have hrecs : recs = J.selected rx := by
     unfold dbRecordsC at h1
     have hcp : (if p.full then (p.schema.getD ss).names else coreFiles).contains t = true := by
       rcases hcopy with hfull | hcore
